@@ -245,8 +245,132 @@ def run_pkgpath_case(case):
   return {'out': [], 'facts': facts}
 
 
+# a parse that fails inside an included file, then - in the same process - a second parse of the same files: an
+# include is the file's statements applied in place, whatever happened to an earlier parse of that file.  The fault sits
+# in the innermost file of a chain of 1-3 includes (a file nobody can read / an unknown configurable / a syntax
+# error); then either the cause is repaired (the file is written / rewritten, or skip_unknown is passed) and the
+# second parse must give exactly the store and the result tree of the flattened text, or nothing is repaired and the
+# second parse must fail like the first one did.  The second parse enters through the same top file, through the
+# middle file directly, or through another top file including the middle file.  A finite table on real files.
+REPARSE_CASES = []
+for _d in (1, 2, 3):
+  for _fault in ('missing', 'unknown', 'syntax'):
+    for _mode in ('repaired', 'again') + (('skip_unknown',) if _fault == 'unknown' else ()):
+      for _entry in ('file', 'config', 'files_and_bindings'):
+        _i = len(REPARSE_CASES)
+        REPARSE_CASES.append({'dom': 'gin', '_kind': 'reparse', 'depth': _d, 'fault': _fault, 'mode': _mode,
+                              'entry': _entry, 'second': ('same_top', 'other_top', 'mid_directly')[_i % 3] if _d > 1 else 'same_top',
+                              'naming': ('relative', 'absolute')[(_i // 3) % 2], 'ops': [], '_nregs': 0})
+
+
+def run_reparse_case(case):
+  import os
+  import shutil
+  import tempfile
+  import core
+  gin = core.fresh_gin()
+  root = tempfile.mkdtemp(prefix='c14re-')
+  saved_cwd = os.getcwd()
+  d, fault, mode = case['depth'], case['fault'], case['mode']
+  names = ['top.gin'] + ['f%d.gin' % i for i in range(1, d + 1)]
+
+  def ref(i):
+    return names[i] if case['naming'] == 'relative' else os.path.join(root, names[i])
+
+  def write(name, text):
+    with open(os.path.join(root, name), 'w') as f:
+      f.write(text)
+  # flat[i] = the (macro, value) pairs of file i with its includes expanded in place, the innermost file in good order
+  leaf_pairs = [('A', 'leaf'), ('B', 'leaf'), ('L%d' % d, d)]
+  flat = {d: leaf_pairs}
+  for i in range(d - 1, -1, -1):
+    flat[i] = [('A', 'f%d-before' % i)] + flat[i + 1] + [('B', 'f%d-after' % i), ('L%d' % i, i)]
+    write(names[i], "A = 'f%d-before'\ninclude '%s'\nB = 'f%d-after'\nL%d = %d\n" % (i, ref(i + 1), i, i, i))
+  flat['other'] = (flat[1] if d > 1 else []) + [('A', 'top2')]
+  if d > 1:
+    write('top2.gin', "include '%s'\nA = 'top2'\n" % ref(1))
+  good = "A = 'leaf'\nB = 'leaf'\nL%d = %d\n" % (d, d)
+  bad = {'missing': None,
+         'unknown': "A = 'leaf'\nc14_nosuch_configurable.x = 1\nB = 'leaf'\nL%d = %d\n" % (d, d),
+         'syntax': "A = 'leaf'\nB = = 2\nL%d = %d\n" % (d, d)}[fault]
+  if bad is not None:
+    write(names[d], bad)
+  universe = ['A', 'B'] + ['L%d' % i for i in range(0, 4)]
+
+  def store():
+    got = {}
+    for m in universe:
+      try:
+        got[m] = gin.query_parameter('%' + m)
+      except ValueError:
+        pass
+    return got
+
+  def tree(r):
+    return [os.path.basename(r.filename), [tree(x) for x in r.includes]]
+
+  def parse(which, skip):
+    target = {'same_top': ref(0), 'other_top': 'top2.gin' if case['naming'] == 'relative' else os.path.join(root, 'top2.gin'),
+              'mid_directly': ref(1)}[which]
+    kw = {'skip_unknown': True} if skip else {}
+    try:
+      if case['entry'] == 'file':
+        r = tree(gin.parse_config_file(target, **kw))
+      elif case['entry'] == 'config':
+        incs, _ = gin.parse_config("include '%s'\n" % target, **kw)
+        r = [tree(x) for x in incs][0]
+      else:
+        r = [tree(x) for x in gin.parse_config_files_and_bindings([target], None, finalize_config=False, **kw)][0]
+      return {'ok': r, 'store': store()}
+    except Exception as e:  # pylint: disable=broad-except
+      return {'err': type(e).__name__, 'msg': (str(e).splitlines() or [''])[0], 'names_file': names[d] in str(e),
+              'store': store()}
+  facts = {}
+  try:
+    os.chdir(root)
+    facts['first'] = parse('same_top', False)
+    gin.clear_config()
+    if mode == 'repaired':
+      write(names[d], good)
+    facts['second'] = parse(case['second'], mode == 'skip_unknown')
+    key = {'same_top': 0, 'other_top': 'other', 'mid_directly': 1}[case['second']]
+    facts['want_store'] = dict(flat[key])
+    chain = [names[d], []]
+    for i in range(d - 1, (0 if case['second'] != 'same_top' else -1), -1):
+      chain = [names[i], [chain]]
+    facts['want_tree'] = ['top2.gin', [chain]] if case['second'] == 'other_top' else chain
+  finally:
+    os.chdir(saved_cwd)
+    shutil.rmtree(root, ignore_errors=True)
+  return {'out': [], 'facts': facts}
+
+
+def reparse_oracle(case, f):
+  what = (f'include chain of depth {case["depth"]} ({case["naming"]} names, entry {case["entry"]}), innermost file '
+          f'{case["fault"]}')
+  want_err = {'missing': 'OSError', 'unknown': 'ValueError', 'syntax': 'SyntaxError'}[case['fault']]
+  first, second = f['first'], f['second']
+  if first.get('err') != want_err or (case['fault'] == 'missing' and not first.get('names_file')):
+    return f'{what}: the parse gave {first}, expected {want_err}'
+  if case['mode'] == 'again':
+    # nothing changed: the second parse fails as the first one did (the same text is included in place)
+    if second.get('err') != want_err or second.get('msg') != first.get('msg'):
+      return (f'{what}: a second parse ({case["second"]}) of the unchanged files gave {second}, the first one '
+              f'{first}')
+    return None
+  if 'err' in second:
+    return f'{what}: after {case["mode"]} the second parse ({case["second"]}) failed: {second}'
+  if second['store'] != f['want_store']:
+    return (f'{what}: after {case["mode"]} the second parse ({case["second"]}) left {second["store"]}, the flattened '
+            f'text gives {f["want_store"]}')
+  if second['ok'] != f['want_tree']:
+    return f'{what}: after {case["mode"]} the second parse returned the tree {second["ok"]}, expected {f["want_tree"]}'
+  return None
+
+
 def gen_cases(rng, tier, boost=1):
   yield from PKGPATH_CASES
+  yield from REPARSE_CASES
   n = (400 if tier == 'quick' else 12000) * boost
   for _ in range(n):
     yield gen_tree_case(rng)
@@ -255,7 +379,7 @@ def gen_cases(rng, tier, boost=1):
 
 
 def compare(case, impl, model):
-  if case['_kind'] == 'pkgpath':
+  if case['_kind'] in ('pkgpath', 'reparse'):
     return None
   return gindom.compare(case, impl, model)
 
@@ -263,6 +387,8 @@ def compare(case, impl, model):
 def run_impl(case):
   if case['_kind'] == 'pkgpath':
     return run_pkgpath_case(case)
+  if case['_kind'] == 'reparse':
+    return run_reparse_case(case)
   out = gindom.run_impl(case)
   if case['_kind'] == 'tree':
     regs = [o for o in case['ops'] if o['op'] == 'register']
@@ -275,6 +401,8 @@ def run_impl(case):
 
 
 def oracle(case, impl):
+  if case['_kind'] == 'reparse':
+    return reparse_oracle(case, impl['facts'])
   if case['_kind'] == 'pkgpath':
     f = impl['facts']
     if f.get('outcome') != f.get('want') or (f.get('want') == 'OSError' and not f.get('names_locations')):
@@ -315,7 +443,7 @@ def oracle(case, impl):
 
 
 def nontrivial(case, impl):
-  if case['_kind'] == 'pkgpath':
+  if case['_kind'] in ('pkgpath', 'reparse'):
     return True
   if case['_kind'] == 'resolve':
     return len(case['ops'][0]['present']) >= 2
@@ -328,8 +456,8 @@ def nontrivial(case, impl):
 
 
 def tally(stats, case, impl):
-  if case['_kind'] == 'pkgpath':
-    stats['kind:pkgpath'] = stats.get('kind:pkgpath', 0) + 1
+  if case['_kind'] in ('pkgpath', 'reparse'):
+    stats['kind:' + case['_kind']] = stats.get('kind:' + case['_kind'], 0) + 1
     return
   k = 'kind:' + case['_kind'] + (':' + case.get('_entry', '') if case['_kind'] == 'tree' else '')
   stats[k] = stats.get(k, 0) + 1
